@@ -208,10 +208,20 @@ def profile(pts, period=0, init=0):
     return {"pts": [(Fraction(t), Fraction(v)) for t, v in pts], "period": Fraction(period), "init": Fraction(init)}
 
 
+TPS = 32        # ticks per second of the profile dates
+
+
+def _ticks(t):
+    k = Fraction(t) * TPS
+    if k.denominator != 1:
+        raise vlib.InfraError("profile date %s is not a whole number of ticks" % t)
+    return k.numerator
+
+
 def _pj(p):
     if not p:
-        return {"pts": [], "period": [0, 1], "init": [0, 1]}
-    return {"pts": [{"t": rj(t), "v": rj(v)} for t, v in p["pts"]], "period": rj(p["period"]), "init": rj(p["init"])}
+        return {"pts": [], "period": 0, "init": [0, 1]}
+    return {"pts": [{"k": _ticks(t), "v": rj(v)} for t, v in p["pts"]], "period": _ticks(p["period"]), "init": rj(p["init"])}
 
 
 def new_host(speeds, cores=1, sprof=None, stprof=None, watts=(), woff=0):
@@ -234,12 +244,12 @@ def new_event(t, op, a, v=0, r=0):
 
 
 def new_scen(hosts=(), links=(), disks=(), acts=(), events=(), samples=()):
-    return {"capcomm": False, "hosts": list(hosts), "links": list(links), "disks": list(disks), "acts": list(acts),
+    return {"capcomm": False, "latwake": False, "hosts": list(hosts), "links": list(links), "disks": list(disks), "acts": list(acts),
             "events": sorted(events, key=lambda e: e["t"]), "samples": sorted(set(Fraction(s) for s in samples))}
 
 
 def scen_json(sc):
-    return {"capcomm": bool(sc.get("capcomm", False)),
+    return {"capcomm": bool(sc.get("capcomm", False)), "latwake": bool(sc.get("latwake", False)), "tps": TPS,
             "hosts": [{"speeds": [rj(s) for s in h["speeds"]], "cores": h["cores"], "sprof": _pj(h["sprof"]),
                        "stprof": _pj(h["stprof"]),
                        "watts": [{"idle": rj(w[0]), "eps": rj(w[1]), "max": rj(w[2])} for w in h["watts"]],
